@@ -173,6 +173,35 @@ def vertex_points(m):
     return np.array(pts)
 
 
+def mirror_warmup(m, tol):
+    """The harness's own replay of HRSampler.generate_fva_warmup on a fresh copy of the model (same solver
+    call sequence, hence the same vertices) followed by the documented redundancy rule; returns the
+    number of non-redundant warm-up rows.  Used only to decide whether a refusal's stated condition holds."""
+    import numpy as np
+    from optlang.symbolics import Zero
+    mm = m.copy()
+    rows = []
+    mm.objective = Zero
+    for sense in ("min", "max"):
+        mm.objective_direction = sense
+        for r in mm.reactions:
+            if r.upper_bound - r.lower_bound < tol:
+                continue
+            mm.objective.set_linear_coefficients({r.forward_variable: 1, r.reverse_variable: -1})
+            mm.slim_optimize()
+            if mm.solver.status == "optimal":
+                pr = mm.solver.primal_values
+                rows.append([pr[v.name] for v in mm.variables])
+                mm.objective.set_linear_coefficients({r.forward_variable: 0, r.reverse_variable: 0})
+    if len(rows) < 2:
+        return len(rows)
+    mat = np.array(rows)
+    extra_col = mat[:, 0] + 1
+    extra_col[mat.sum(axis=1) == 0] = 2
+    corr = np.tril(np.corrcoef(np.c_[mat, extra_col]), -1)
+    return int((~(np.abs(corr) > 1.0 - tol).any(axis=1)).sum())
+
+
 class ScriptedRandom:
     """Replaces numpy.random.uniform / randint while the real `step` runs a scripted retry."""
     def __init__(self, script):
@@ -270,6 +299,20 @@ def run_instance(inst):
         s = make(cfg)
         return s, s.sample(cfg["n"], fluxes=cfg["fluxes"])
 
+    tolf = float(m.tolerance)
+    inhomogeneous = any(r["lb"] == r["ub"] and r["lb"] != 0 for r in net["rxns"]) or any(
+        lu[0] is not None and lu[1] is not None and F(lu[1]) - F(lu[0]) < F(tolf) and abs(F(lu[0])) > F(tolf)
+        for lu in resolved)
+    cache = {}
+
+    def n_keep():
+        if "k" not in cache:
+            try:
+                cache["k"] = mirror_warmup(m, tolf)
+            except Exception:
+                cache["k"] = -1
+        return cache["k"]
+
     a_sampler = None
     for cfg in inst["configs"]:
         ob = dict(base, kind="sample", config=cfg, py_codes=[])
@@ -277,13 +320,18 @@ def run_instance(inst):
             s, df = draw(cfg)
         except ValueError as e:
             ob["refused"] = str(e)
-            degenerate = dim <= 1
-            if not (str(e) in REFUSALS and degenerate):
+            ob["error"] = "ValueError"
+            ob["n_keep"] = n_keep()
+            ok = (str(e) == REFUSALS[0] and ob["n_keep"] <= 1) or \
+                 (str(e) == REFUSALS[1] and ob["n_keep"] == 2 and inhomogeneous)
+            if not ok:
                 ob["py_codes"].append(8)
             out.append(ob)
             continue
         except Exception as e:
             ob["refused"] = "%s: %s" % (type(e).__name__, str(e)[:200])
+            ob["error"] = type(e).__name__
+            ob["n_keep"] = n_keep()
             ob["py_codes"].append(8)
             out.append(ob)
             continue
@@ -328,6 +376,7 @@ def run_instance(inst):
             base_rows = s.sample(3, fluxes=False).values
         except Exception as e:     # the sampler failed on a model it had accepted
             out.append(dict(base, kind="sample", py_codes=[8], refused="%s: %s" % (type(e).__name__, str(e)[:200]),
+                            error=type(e).__name__, n_keep=n_keep(),
                             config={"method": "achr", "api": "object", "n": 3, "thinning": int(s.thinning),
                                     "seed": None, "processes": 1, "fluxes": False, "nproj": int(s.nproj)}))
             return out
@@ -480,6 +529,9 @@ def evaluate(instances, jobs=None):
     res, faults = K.coq_eval_cases(HEADER, terms, "case", "failing", shard=60)
     for j, lst in res:
         i = idx[j]
+        if [code for _, code in lst] == [0]:        # step case skipped as ill-conditioned (near a guard threshold)
+            obs[i]["ill_conditioned"] = True
+            continue
         failing[i] = sorted(set(failing.get(i, []) + [code for _, code in lst]))
         detail[i] = [[int(a), int(b)] for a, b in lst]
     return obs, owner, failing, detail, faults
@@ -501,6 +553,8 @@ def signature(ob, codes):
         sig.update(space="variables" if varspace else "flux")
     if 9 in codes:
         sig["code"] = 9
+    if 8 in codes:
+        sig.update(code=8, error=ob.get("error"), two_warmup_rows=ob.get("n_keep") == 2)
     # only validate()'s verdict is at stake (codes 1, 3, 9), on variable-space rows of a model that has
     # inequality constraints
     sig["validate_with_inequalities_in_variable_space"] = bool(
@@ -564,8 +618,9 @@ def main(argv=None):
             broken.append("model evaluation (coqc on generated cases) failed: " + faults[0][-600:])
 
     dist = {"kinds": {}, "skipped": {}, "method": {}, "space": {}, "api": {}, "processes": {}, "dim": {},
-            "homogeneous_step_cases": 0, "instances_with_user_constraints": 0, "refusals_accepted": 0,
-            "samples_rows": 0, "validate_rows": 0, "step_retry_cases": 0, "nproj_forced_reprojection": 0}
+            "homogeneous_step_cases": 0, "instances_with_user_constraints": 0, "refusals_accepted": 0, "two_row_warmups": 0,
+            "samples_rows": 0, "validate_rows": 0, "step_retry_cases": 0, "nproj_forced_reprojection": 0,
+            "step_cases_skipped_ill_conditioned": 0}
     n_eval, nontrivial = 0, set()
     for ob in obs:
         if ob["kind"] == "skip":
@@ -591,6 +646,8 @@ def main(argv=None):
             dist["validate_rows"] += len(ob["rows"])
             nontrivial.add(json.dumps([ob["net"], "validate", ob["varspace"]], sort_keys=True))
         else:
+            if ob.get("ill_conditioned"):
+                dist["step_cases_skipped_ill_conditioned"] += 1
             if ob.get("used"):
                 dist["step_retry_cases"] += 1
             if ob["problem"]["homogeneous"]:
